@@ -924,7 +924,7 @@ class ExprMixin(object):
                     return self.ok(st, base.py[i])
                 return self.raise_(st, 'IndexError', node)
             self.oos('symbolic index into a static tuple', node)
-        if ty == PY and base.py[0] == 'extern':
+        if ty == PY and base.py[0] in ('extern', 'modvar'):      # modvar: a module-level table of the package (read by contract)
             q = base.py[1] + '.__getitem__'
             c = self.spec.contracts.get(q)
             if c is None:
